@@ -14,7 +14,7 @@ def instrument(sched, instruction_seq=True):
     from rpyc.core.protocol import Connection
     from rpyc.core.async_ import AsyncResult
     global _codes
-    line = [Connection.serve.__code__, Connection._dispatch.__code__, Connection._seq_request_callback.__code__,
+    line = [Connection._send.__code__, Connection.serve.__code__, Connection._dispatch.__code__, Connection._seq_request_callback.__code__,
             Connection._async_request.__code__, Connection.async_request.__code__,
             getattr(AsyncResult.__call__, "__wrapped__", AsyncResult.__call__).__code__,
             AsyncResult.wait.__code__]
@@ -92,6 +92,8 @@ def run_shared(cfg, seed, policy="random", script=(), p_switch=0.3, census=False
     nclients, modes, with_bg = cfg
     sched = vsched.Sched(seed=seed, policy=policy, script=script, p_switch=p_switch, max_steps=150000)
     sched.record_census = census
+    if with_bg == "poller":
+        sched.spin_cost = 0.002          # poll_all() busy-waits while another thread holds the receive lock
     rng = random.Random(repr(("peer", seed)))
     net = vnet.Net(waiter=vsched.SchedWaiter(sched))
     conn = rpyc.VoidService()._connect(Channel(net.a), {"sync_request_timeout": timeout})
@@ -174,12 +176,27 @@ def run_shared(cfg, seed, policy="random", script=(), p_switch=0.3, census=False
             out = ("exc", type(e).__name__)
         obs["outcomes"].append((token, out, t_ret, obs["done_at"].get(id(ar)), ci))
 
+    poll_state = dict(stop=False)
+
+    def poller():
+        # an application thread that keeps the connection served through the non-blocking API (poll_all), as GUI loops do
+        while not poll_state["stop"]:
+            try:
+                conn.poll_all(0.25)
+            except EOFError:
+                return
+            sched.time.sleep(0.01)      # (poll_all returns at once when another thread holds the receive lock)
+
     def driver():
         from rpyc.utils.helpers import BgServingThread
-        bg = BgServingThread(conn) if with_bg else None
+        bg = BgServingThread(conn) if with_bg is True else None
+        ph = sched.spawn(poller, name="poller") if with_bg == "poller" else None
         handles = [sched.spawn(client, i, name="c%d" % i) for i in range(nclients)]
         sched.block(lambda: all(h.state == "DONE" for h in handles), None, ("join-clients",))
         del keep[:]
+        poll_state["stop"] = True
+        if ph is not None:
+            sched.block(lambda: ph.state == "DONE", None, ("join-poller",))
         if bg is not None:
             try:
                 bg.stop()
@@ -228,7 +245,8 @@ def stalls(obs):
                     if tag and tag[0] == "cond-wait":
                         tag = ("cond-wait", "behind-poller" if [p for p in pollers if p != name] else "nobody-polling")
                     tags.append(tag)
-            out.append((token, t_ret - t_done, tags))
+            if tags:        # stalled = the clock had to JUMP while the waiter sat blocked (spin costs alone are not stalls)
+                out.append((token, t_ret - t_done, tags))
     return out
 
 
